@@ -527,6 +527,7 @@ func init() {
 			"(E6.send-recorded) every list queued to a peer's sender has been recorded by updateRoutes on every path; (E6.reset-complete) the session-end reset clears every bookkeeping field; (E6.addpath-direction) packers and serialisers budget path identifiers for the send direction; (E2e) every path queued for a peer comes out of the export pipeline for that peer. (E4.case-ratchet) against a committed baseline, no switch of the code this property is anchored in has lost a named case. (E6.call-ratchet) against a committed baseline, no function of that code has stopped calling (directly or through helpers) a non-trivial callee it called on the reviewed tree.",
 		Not: "That the filter logic selects the right path or withdrawal, ADD-PATH send-max arithmetic, coalescing, and equality of the peer's view with the Loc-RIB over all histories and schedules are not decided.",
 		Run: func(c *Ctx) {
+			c.ruleRatchets("C01")
 			c.ruleRequires("E1b.requires", []reqRow{
 				{"(*internal/pkg/table.TableManager).Update", lkBucket, locks.W, "RIB update and fan-out form one critical section per prefix bucket"},
 				{"(*pkg/server.BgpServer).propagateUpdateToNeighbors", lkBucket, locks.W, "fan-out must see the RIB state produced by the update it follows"},
@@ -535,7 +536,6 @@ func init() {
 			}, 4)
 			c.ruleLocalIDStable("E6.local-id-stable")
 			c.ruleCaseRatchet("E4.case-ratchet", []string{"pkg/server"}, func(f string) bool {
-			c.ruleCallRatchet("E6.call-ratchet", []string{"pkg/server"}, func(f string) bool { return strings.HasSuffix(f, "/server.go") || strings.HasSuffix(f, "peer.go") }, "baselines/calls.json", 150)
 				return strings.HasSuffix(f, "server.go") && !strings.HasSuffix(f, "grpc_server.go") && !strings.HasSuffix(f, "bfd_server.go") || strings.HasSuffix(f, "peer.go")
 			}, "baselines/switches.json", 20)
 			c.ruleBookkeepingLocks("E1b.bookkeeping")
